@@ -175,6 +175,44 @@ class ConcPart(Part):
                 "switches": res.stats.get("switches")}
 
 
+class ConcCrashPart(ConcPart):
+    """C10 extension: whole-process death in the middle of a multi-task run."""
+    engine = "CRASH"
+
+    def __init__(self, prop, name="crash-conc", weight=1.0):
+        ConcPart.__init__(self, prop, "obj", name=name, weight=weight)
+        self.rule = ("CRASH-in-CONC: 2-3 tasks under the seeded scheduler, the whole process dies before a seeded "
+                     "mutating seam event of the concurrent phase; recovery oracle on a new instance for every pid "
+                     "(bystanders unchanged; involved pids complete-or-reported; delete_object then store_object "
+                     "succeeds). distinct+non-trivial = distinct partial-order signatures up to the crash point")
+
+    def gen(self, seed, tier):
+        import random
+        prog = gen.gen_conc_program(seed, "obj", tier, mp=False)
+        prog["crash"] = {"index": random.Random("cc:%d" % seed).randrange(0, 60)}
+        return prog
+
+    def run(self, prog):
+        from . import conc
+        res = conc.run_conc_crash(prog)
+        if res.stats.get("nofire") and not res.harness_error and prog["crash"]["index"] > 0:
+            prog["crash"] = {"index": prog["crash"]["index"] // 3}
+            res = conc.run_conc_crash(prog)
+        if "preempt" not in prog and res.stats.get("preempt") is not None and res.violations:
+            prog["preempt"] = res.stats["preempt"]
+            prog["knobs"] = dict(prog["knobs"], policy="default")
+        return res
+
+    def key(self, prog, res):
+        if res.stats.get("nofire"):
+            return None
+        return (res.stats.get("interleaving"), repr(res.stats.get("site")))
+
+    def sample(self, prog, res):
+        return {"part": self.name, "setup": prog["setup"], "tasks": prog["tasks"], "crash": prog["crash"],
+                "site": res.stats.get("site")}
+
+
 class ConcPairsPart(ConcPart):
     """Every unordered pair of the call menu x every start state, k seeded schedules each."""
     must_complete = True
